@@ -73,7 +73,7 @@ def ticksNeeded (b : Bucket) (n : Nat) : Nat := (n - b.tokens + b.refill - 1) / 
 /-- `bandwidthLimitingWrite` for one buffer of `n ≤ capacity` bytes, with a tick source that never
     stops: returns the number of ticks waited and the bucket afterwards. `none` = the
     `ErrBufferSizeTooLarge` refusal. -/
-def admit (b : Bucket) (n : Nat) : Option (Nat × Bucket) :=
+def admitOne (b : Bucket) (n : Nat) : Option (Nat × Bucket) :=
   if n > b.capacity then none
   else
     let k := ticksNeeded b n
@@ -84,7 +84,7 @@ def admit (b : Bucket) (n : Nat) : Option (Nat × Bucket) :=
 def admitAll : Bucket → List Nat → Option (Nat × Bucket)
   | b, [] => some (0, b)
   | b, n :: ns =>
-    match admit b n with
+    match admitOne b n with
     | none => none
     | some (k, b') =>
       match admitAll b' ns with
